@@ -38,7 +38,12 @@ def configs(tier, seed):
         out.append(dict(name="screen r=1 a=1 +1", h="screen", rows=1, arity=1, extra=1))
         out.append(dict(name="screen r=1 a=2 +1 fixed-doses", h="screen", rows=1, arity=2, extra=1, doses="fixed", plates="one"))
         out.append(dict(name="badmap n=2", h="badmap", n=2))
+        out.append(dict(name="treat n=1 m=2 names of unequal length", h="treat", n=1, m=2, pool=True))
+        out.append(dict(name="one_d n=2 m=2 names of unequal length", h="one_d", n=2, m=2, pool=True))
     else:
+        out.append(dict(name="treat n=2 m=2 names of unequal length", h="treat", n=2, m=2, pool=True))
+        out.append(dict(name="one_d n=2 m=3 names of unequal length", h="one_d", n=2, m=3, pool=True))
+        out.append(dict(name="one_d n=3 m=2 names of unequal length", h="one_d", n=3, m=2, pool=True))
         for n, m in ((1, 0), (2, 0), (3, 0), (4, 0), (2, 1), (3, 1), (2, 2)):
             out.append(dict(name="treat n=%d m=%d" % (n, m), h="treat", n=n, m=m))
         for n, m in ((4, 0), (5, 0), (3, 2)):
@@ -57,6 +62,9 @@ def configs(tier, seed):
 def fixtures(cfg):
     """concrete inputs pushed through modelled and real libraries (model validation);
     the first ones are the arrays of data_test.py"""
+    if cfg.get("pool"):
+        return [dict(nmk0=0, nmk1=1, nmk2=2, nmk3=3, nmk4=0, ctrlk=4, ds0=1.0, ds1=2.0, ds2=1.0, ds3=0.5),
+                dict(nmk0=3, nmk1=0, nmk2=1, nmk3=3, nmk4=5, ctrlk=3, ds0=1.0, ds1=1.0, ds2=1.0, ds3=0.0)]
     if cfg["h"] == "treat":
         n, m = cfg["n"], cfg["m"]
         base = [dict(ctrl="", **{"nm%d" % i: v for i, v in enumerate(["a", "a", "b", "b", "", "a"])},
@@ -81,6 +89,16 @@ def fixtures(cfg):
                 k += 1
         return [vals]
     return []
+
+
+# names of unequal length with common prefixes: what numpy's fixed-width unicode arrays would truncate or confuse
+POOL = ["ab", "abc", "abd", "zz", "", "a"]
+
+
+def _names(ctx, cfg, k):
+    if cfg.get("pool"):
+        return [POOL[int(ctx.int("nmk%d" % i, 0, len(POOL) - 1))] for i in range(k)]
+    return [ctx.str("nm%d" % i) for i in range(k)]
 
 
 def _iff(ctx, a, b):
@@ -118,9 +136,9 @@ def h_treat(ctx, cfg):
     np = ctx.np
     data = ctx.mod("batchie.data")
     n, m = cfg["n"], cfg["m"]
-    names = [ctx.str("nm%d" % i) for i in range(n + m)]
+    names = _names(ctx, cfg, n + m)
     doses = [ctx.real("ds%d" % i) for i in range(n + m)]
-    ctrl = ctx.str("ctrl")
+    ctrl = POOL[int(ctx.int("ctrlk", 3, 4))] if cfg.get("pool") else ctx.str("ctrl")
     if m == 0:
         ids, mn, md, mi = data.encode_treatment_arrays_to_0_indexed_ids(
             np.array(names), np.array(doses, dtype=float), control_treatment_name=ctrl)
@@ -163,7 +181,7 @@ def h_one_d(ctx, cfg):
     np = ctx.np
     data = ctx.mod("batchie.data")
     n, m = cfg["n"], cfg["m"]
-    names = [ctx.str("nm%d" % i) for i in range(n + m)]
+    names = _names(ctx, cfg, n + m)
     if m == 0:
         ids, mn, mi = data.encode_1d_array_to_0_indexed_ids(np.array(names))
         ids, mn, mi = ids.tolist(), mn.tolist(), mi.tolist()
